@@ -1,4 +1,5 @@
 """C08 — SNAP ingress filter: no spoofed source and no unsupported path type enters SCION."""
+import re
 import templates as T
 import panic as PN
 import enc as ENC
@@ -72,6 +73,66 @@ def run(F, R, tier, cfg):
         if not ok:
             R.violation("GS-filter", "%s/%s" % (CHECK, name),
                         "inbound_datagram_check can accept without the check `%s`: %s" % (why, info.get("why")), F.loc(CHECK), info)
+    # CMP-src: the source comparison is an exact (in)equality of the wire source IP and the *untransformed* expected address:
+    # any value-changing call on either side (to_canonical, to_ipv6_mapped, masks …) makes distinct addresses compare equal
+    ALLOWED = re.compile(r"(::PartialEq::(ne|eq)|Try>::branch|::ok_or|::and_then|::ok|::map_err|::src_host_addr|::header|View::try_from_slice|WireHostAddr::ip)$")
+    n_cmp = 0
+    for g in T.guard_blocks(b, g_src):
+        o = b.origin(b.term(g)[1])
+        while o[0] == "un" and o[1] == "Not":
+            o = o[2]
+        n_cmp += 1
+        bad = []
+        if o[0] == "call" and re.search(r"::PartialEq::(ne|eq)$", o[1]) and len(o[2]) == 2:
+            sides = [PN._peel_refs(strip_sites(x)) for x in o[2]]
+            if ("param", 2) not in sides:
+                bad.append("the expected address is not compared as given: %s" % " / ".join(fmt(x, 60) for x in sides))
+        elif not (o[0] == "bin" and o[1] in ("Eq", "Ne")):
+            bad.append("not an ==/!= comparison: %s" % fmt(strip_sites(o), 80))
+        for nn in walk(o):
+            if nn[0] == "call" and not ALLOWED.search(nn[1]):
+                bad.append("value passes through %s" % short(nn[1]))
+            if nn[0] == "agg" and isinstance(nn[1], tuple) and len(nn[1]) > 1 and "{closure#" in str(nn[1][1]) and F.has_body(nn[1][1]):
+                co = strip_sites(F.body(nn[1][1]).local_origin(0))
+                for cn in walk(co):
+                    if cn[0] == "call" and not ALLOWED.search(cn[1]):
+                        bad.append("closure %s applies %s" % (short(nn[1][1]), short(cn[1])))
+        R.ob("CMP-src", "source comparison is exact on untransformed operands", not bad, True,
+             {"rule": "CMP-src", "fn": CHECK, "comparison": fmt(strip_sites(o), 200), "problems": bad, "holds": not bad})
+        if bad:
+            R.violation("CMP-src", CHECK + "/source-comparison", "the SCION source / tunnel peer comparison is not an exact equality of the two addresses: %s — "
+                        "a source host that differs from the peer address can be accepted" % "; ".join(sorted(set(bad))), b.term_span(g).loc)
+    R.floor("CMP-src", n_cmp, 1, "source-address comparison in inbound_datagram_check")
+
+    # PARSE-hdrlen: "parses as a SCION packet" includes a header-length field that equals the size of the header it
+    # describes (common + address + path); the parser must *equate* the advertised and the computed size on every
+    # accepting path — `computed <= advertised` accepts packets with undefined bytes between path and payload
+    HL = "sciparse::proto::header::layout::ScionHeaderLayout::try_from_slice"
+    hb = F.body(HL)
+    if hb is None:
+        R.anchor_missing(HL)
+    else:
+        R.fn(HL)
+        hoks = [bb for (bb, idx, adt, var) in T.result_variant_defs(hb) if var == "Ok"]
+        okh = bool(hoks)
+        for ok_bb in hoks:
+            found = False
+            for g, cond, pol in PN._cmp_guards(hb, ok_bb):
+                nn = PN._norm_cmp(cond, pol)
+                if not nn or nn[0] != "Eq":
+                    continue
+                ta, tb = tokens(nn[1]), tokens(nn[2])
+                adv = lambda tk: any(t.startswith("fn:") and t.endswith("::header_len") for t in tk)
+                comp = lambda tk: sum(1 for t in tk if t.startswith("fn:") and t.endswith("::size_bytes")) >= 2
+                if (adv(ta) and comp(tb)) or (adv(tb) and comp(ta)):
+                    found = True
+            okh = okh and found
+        R.ob("PARSE-hdrlen", "ScionHeaderLayout::try_from_slice: Ok only when advertised header length == computed header size", okh, True,
+             {"rule": "PARSE-hdrlen", "fn": HL, "ok_exits": len(hoks), "holds": okh})
+        if not okh:
+            R.violation("PARSE-hdrlen", HL, "the header parser can accept a packet whose header-length field differs from the size of its common, address and "
+                        "path headers: a datagram that is not a well-formed SCION packet passes the ingress filter's parse step", F.loc(HL))
+
     # decision table of the path-type switch
     gs = T.guard_blocks(b, g_pt)
     if pt_adt and gs:
